@@ -1057,6 +1057,9 @@ def group_nearby_members(
     out = np.full(len(group_key), -1)
     for i in range(len(group_key)):
         key = group_key[i]
+        if key < 0:
+            # null key: belongs to no group (index -1 would be the last group's state)
+            continue
         current_value = values[i]
         if not seen[key]:
             seen[key] = True
